@@ -4,7 +4,7 @@ from fsv.build import Cfg
 from fsv.case import *
 
 FT = ['float', 'double']
-IT = ['int', 'long long']
+IT = ['int', 'long']
 ALLT = FT + IT
 
 
